@@ -812,6 +812,12 @@ public:
      */
     size_t realTime_currentDevice(size_t track);
 
+    /**
+     * @brief The song (re)starts: every track is back on the first device, the synth is in its
+     * default mode and the channels are in their initial state
+     */
+    void realTime_SongBegin();
+
 #if defined(ADLMIDI_AUDIO_TICK_HANDLER)
     // Audio rate tick handler
     void AudioTick(uint32_t chipId, uint32_t rate);
